@@ -121,6 +121,33 @@ type c12rac struct{ *bytes.Reader }
 
 func (c12rac) Close() error { return nil }
 
+// c12sparse serves data followed by zeros up to size
+type c12sparse struct {
+	data []byte
+	size int64
+}
+
+func (s c12sparse) ReadAt(p []byte, off int64) (int, error) {
+	if off < 0 || off >= s.size {
+		return 0, io.EOF
+	}
+	n := len(p)
+	short := false
+	if off+int64(n) > s.size {
+		n, short = int(s.size-off), true
+	}
+	for i := 0; i < n; i++ {
+		p[i] = 0
+	}
+	if off < int64(len(s.data)) {
+		copy(p[:n], s.data[off:])
+	}
+	if short {
+		return n, io.EOF
+	}
+	return n, nil
+}
+
 func c12reader(b []byte) c12rac { return c12rac{bytes.NewReader(b)} }
 
 // ---- seeds ----------------------------------------------------------------------------------------------------------
@@ -492,7 +519,7 @@ var c12FormatSeeds = map[string][][2]string{ // format -> (parser, seed file)
 	"compactindexsized":         {{"compactindex:cid-to-offset-and-size", "cid-to-offset-and-size"}, {"compactindex:slot-to-cid", "slot-to-cid"}, {"compactindex:sig-to-cid", "sig-to-cid"}, {"compactindex:pubkey", "pubkey"}, {"gsfa-dir:pubkey", "pubkey"}},
 	"compactindex_deprecated":   {{"dep-compactindex", "dep-compactindex"}},
 	"compactindex36_deprecated": {{"dep-compactindex36", "dep-compactindex36"}},
-	"sigexists":                 {{"sigexists", "sigexists"}},
+	"sigexists":                 {{"sigexists", "sigexists"}, {"sigexists-sparse", "sigexists"}},
 	"sigexists_deprecated":      {{"dep-sigexists", "dep-sigexists"}},
 	"blocktime":                 {{"blocktime", "blocktime"}},
 	"gsfa_manifest":             {{"manifest", "manifest"}, {"gsfa-dir:manifest", "manifest"}},
@@ -999,6 +1026,30 @@ func c12Run(s *c12Seeds, job c12Job, data []byte, scratch string) (res string) {
 				_, err := r.Has(x)
 				note(err)
 			}
+			z := [64]byte{0, 0, 0x11, 0x22, 0x33}
+			_, err := r.Has(z)
+			note(err)
+		}
+	case p == "sigexists-sparse":
+		// the same bytes at the start of a huge sparse file (or a remote that answers any range): reads past the bytes we have
+		// return zeros up to a virtual size of 2^40, so offsets and counts taken from the file are not stopped by a short file
+		r, err := bucketteer.NewReader(c12sparse{data: data, size: 1 << 40})
+		note(err)
+		if err == nil {
+			r.Meta()
+			for i, k := range tr.Sigs {
+				if i > 12 {
+					break
+				}
+				var x [64]byte
+				copy(x[:], k)
+				_, err := r.Has(x)
+				note(err)
+			}
+			// a signature of the first prefix bucket (the one the structured bucket fields are mutated in)
+			z := [64]byte{0, 0, 0x11, 0x22, 0x33}
+			_, err := r.Has(z)
+			note(err)
 		}
 	case p == "dep-sigexists":
 		r, err := depbucketteer.NewReader(bytes.NewReader(data))
